@@ -23,19 +23,23 @@ Next == \/ \E i \in 1..N, a \in 1..K, v \in 0..V : u' = [u EXCEPT ![i][a] = v] /
 \* every set of sizes the API can ask for: all (2..D), non-dyadic (3..D), one size, arbitrary arrays
 DimSets == SUBSET (2..N)
 
+\* Lam: brute-force Poisson parameter of EVERY possible hyperedge; T: brute-force expected degree per (node, size);
+\* NT, B: the node terms and bf_and_sum of the closed forms - each evaluated once per state (u, w)
 PoissonShortcut(Lam) == \A e \in SUBSET (1..N) : Cardinality(e) >= 2 => REq(PoissonCF(u, w, e), RInt(Lam[e]))
-ExpCountClosed(Lam)  == \A d \in 2..N : REq(ExpCountCF(u, w, N, d), ExpCountBF(Lam, N, d))
-ExpDegClosed(Lam)    == \A ds \in DimSets : \A i \in 1..N : REq(ExpDegCF(u, w, N, ds, i), ExpDegBF(Lam, N, ds, i))
-AvgDegClosed(Lam)    == \A ds \in DimSets : REq(AvgDegCF(u, w, N, ds), AvgDegBF(Lam, N, ds))
+ExpCountClosed(Lam, B) == \A d \in 2..N : REq(ExpCountCFT(B, d), ExpCountBF(Lam, N, d))
+ExpDegClosed(T, NT)  == \A ds \in DimSets : \A i \in 1..N : REq(ExpDegCFT(NT[i], N, ds), ExpDegBFT(T, ds, i))
+AvgDegClosed(T, B)   == \A ds \in DimSets : REq(AvgDegCFT(B, N, ds), AvgDegBFT(T, N, ds))
 \* the sum of the expected degrees counts every expected hyperedge once per member
-HandShake(Lam)       == \A ds \in DimSets :
-                          LET E(i) == ExpDegBF(Lam, N, ds, i)   C(d) == RMul(RInt(d), ExpCountBF(Lam, N, d))
+HandShake(Lam, T)    == \A ds \in DimSets :
+                          LET E(i) == ExpDegBFT(T, ds, i)   C(d) == RMul(RInt(d), ExpCountBF(Lam, N, d))
                           IN REq(RSum(E, 1..N), RSum(C, ds))
 
-\* Lam: the table of brute-force Poisson parameters of EVERY possible hyperedge, evaluated once per state
 ClosedFormsEqualBruteForce ==
   LET Lam == TLCEval(LamTable(u, w))
-  IN PoissonShortcut(Lam) /\ ExpCountClosed(Lam) /\ ExpDegClosed(Lam) /\ AvgDegClosed(Lam) /\ HandShake(Lam)
+      T   == TLCEval(DegTable(Lam, N))
+      NT  == TLCEval([i \in 1..N |-> NodeTerms(u, w, i)])
+      B   == TLCEval(BfSum(u, w))
+  IN PoissonShortcut(Lam) /\ ExpCountClosed(Lam, B) /\ ExpDegClosed(T, NT) /\ AvgDegClosed(T, B) /\ HandShake(Lam, T)
 
 \* kappa_d = (hyperedges of size d through a given pair of nodes) x (node pairs inside one hyperedge of size d)
 KappaCountsPairs == \A d \in 2..N :
